@@ -404,6 +404,18 @@ def s3(chk: Check, proj: Project, m) -> None:
                "the Media paths are rewritten relative to the component directory on every path that marks the class resolved" if not extra else
                f"_resolve_component_relative_files(...) runs only if `{('' if extra[0][1] else 'not ') + extra[0][0]}`, yet the class is marked resolved either way: a component with everything inlined and RELATIVE Media files keeps `card.js` instead of `cards/card.js` when .template / .js / .css is read before .media - and the right paths when .media is read first")
     gm2 = m.func("_get_comp_cls_media")
+    for lp in [x for x in ast.walk(gm2) if isinstance(x, ast.While)]:
+        brk = [x for x in ast.walk(lp) if isinstance(x, ast.Break) and next((a for a in ancestors(x) if isinstance(a, (ast.For, ast.While))), None) is lp]
+        chk.ob("S3", "component_media:_get_comp_cls_media:work-loop-runs-until-the-stack-is-empty", m.loc(brk[0]) if brk else m.loc(lp), not brk,
+               "the work loop has no break: a class that is already memoised is skipped, the classes queued behind it are still processed" if not brk else
+               f"`break` under `{' and '.join(('' if pol else 'not ') + t for t, pol in cond_atoms(brk[0])) or 'always'}` ends the work loop at the first class that is already memoised: with A; B(A); C(B, A) - A is queued twice - the loop stops while C is still unresolved and `media_cache[C]` raises KeyError (only if C's media is read before A's or B's)")
+    nm_ = m.func("_normalize_media")
+    single_tests = [st for st in ast.walk(nm_) if isinstance(st, ast.If) and st.body and any(isinstance(x, ast.Assign) and isinstance(x.value, (ast.List, ast.Dict)) for x in st.body) and not isinstance(st.test, ast.BoolOp)
+                    and not (isinstance(st.test, ast.Call) and norm(st.test.func) == "isinstance" and len(st.test.args) == 2 and any(isinstance(y, ast.Name) and y.id in ("dict", "list", "tuple") for y in ast.walk(st.test.args[1])))]
+    odd = [st for st in single_tests if not (isinstance(st.test, ast.Call) and last_attr(st.test.func) == "_is_media_filepath")]
+    chk.ob("S5", "component_media:_normalize_media:one-predicate-for-a-single-path", m.loc(odd[0]) if odd else m.loc(nm_), not odd and len(single_tests) >= 2,
+           f"all {len(single_tests)} 'is this ONE path?' decisions use _is_media_filepath" if not odd and len(single_tests) >= 2 else
+           f"`if {short(odd[0].test) if odd else '?'}` decides 'one path or a list' with another test than _is_media_filepath, which the sibling branches use: a callable or an object with __html__ given as a single value of the css dict (`{{\"print\": lazy_fn}}`) is not wrapped in a list and class creation raises TypeError, although the same value works in the str / list forms")
     budget = []
     for lp in [x for x in ast.walk(gm2) if isinstance(x, ast.While)]:
         for r in [x for x in ast.walk(lp) if isinstance(x, ast.Raise)]:
